@@ -200,3 +200,73 @@ def build(prog: Program, model: Model, st: SchemaType, tier: str,
         if len(seen) > 400:
             break
     return ta
+
+
+_ADMITTED: Dict[Tuple[int, str, str], Optional[FrozenSet[str]]] = {}
+_EXCLUDED: Dict[Tuple[int, str, str], FrozenSet[str]] = {}
+
+
+def excluded_kinds(prog: Program, model: Model, st: SchemaType, prop: str) -> FrozenSet[str]:
+    """Kinds every accepting path of the declaration rules out for `prop` by a negative isinstance guard
+    (e.g. `bool` when an int bound must not be a flag)."""
+    admitted_kinds(prog, model, st, prop)
+    return _EXCLUDED.get((id(prog), st.cls.qualname, prop), frozenset())
+
+
+def admitted_kinds(prog: Program, model: Model, st: SchemaType, prop: str) -> Optional[FrozenSet[str]]:
+    """Kinds of value the declaration stores under `prop`, read off the isinstance guards of the refinement methods:
+    every method that updates the prop is run from the empty state with arguments of unknown kind; on each accepting
+    path that stores an argument itself, the positive isinstance facts on it give the kinds (negative ones remove
+    kinds).  None when some accepting path stores something whose kind no guard establishes."""
+    ck = (id(prog), st.cls.qualname, prop)
+    if ck in _ADMITTED:
+        return _ADMITTED[ck]
+    kinds: Set[str] = set()
+    negs: List[FrozenSet[str]] = []
+    unknown = False
+    found = False
+    for f in st.refinements():
+        upd = st.update_keys.get(f.name, [])
+        if upd and prop not in upd:
+            continue        # (a method without a visible update site may delegate to a helper: it is run)
+        params = [a.arg for a in f.node.args.posonlyargs + f.node.args.args if a.arg != "self"]
+        it = Interp(prog, model, max_depth=6, unroll=1)
+
+        def run(i: Interp, f: FuncInfo = f, params: List[str] = params) -> V:
+            sc = i.make_schema(st, (), {}, origin="self")
+            args = [Sym(f"{f.name}.{n}", None, ("arg", n)) for n in params]
+            return i.call_function(f, args, {}, self_val=sc)
+        for p in it.run_paths(run, max_paths=400):
+            if p.outcome != "return" or not (isinstance(p.value, SchemaV) and isinstance(p.value.props, PropsV)):
+                continue
+            v = p.value.props.vals.get(prop)
+            if v is None or is_nil(v):
+                continue
+            found = True
+            if isinstance(v, Const):
+                if v.kind:
+                    kinds.add(v.kind)
+                continue
+            if not (isinstance(v, Sym) and v.origin and v.origin[0] == "arg"):
+                if getattr(v, "kind", None):
+                    kinds.add(v.kind)       # type: ignore[arg-type]
+                else:
+                    unknown = True
+                continue
+            pos: Set[str] = set()
+            neg: Set[str] = set()
+            for _, t, b in p.facts:
+                if isinstance(t, Term) and t.op == "isinstance" and t.args and isinstance(t.args[0], V) and t.args[0].key() == v.key():
+                    labels = set(str(t.args[1]).split("|"))
+                    if b:
+                        pos = labels if not pos else (pos & labels)
+                    else:
+                        neg |= labels
+            if not pos:
+                unknown = True
+            kinds |= (pos - neg)
+            negs.append(frozenset(neg))
+    out = None if (unknown or not found) else frozenset(kinds)
+    _ADMITTED[ck] = out
+    _EXCLUDED[ck] = frozenset.intersection(*negs) if negs else frozenset()
+    return out
